@@ -618,5 +618,5 @@ def run(tier="quick"):
     rep.not_decided = ["x87 control word (not in the statement)", "arbitrary start/stop/restart sequences beyond the listed orderings"]
     for m in models[:1]:
         rep.configs.append(m.config)
-        rules(rep, m)
+        common.run_rules(rep, m, rules)
     return rep.finish()
